@@ -241,10 +241,7 @@ pub(crate) fn k_remove_inode<Fd: AsFd>(dirfd: Fd, name: &Path) -> Result<(), Err
     c.name_len = nl;
     c.flags = 0xbeef; // "unlink-or-rmdir of (dirfd, name)"
     if k.fails() {
-        // the errno of the failed removal is NOT pinned by the scenario: every errno 1..=133
-        let e: i32 = kani::any();
-        kani::assume(e >= 1 && e <= 133);
-        c.errno = e;
+        c.errno = any_errno();
         k.push(c);
         Err(ErrorImpl::OsError {
             operation: "remove inode".into(),
@@ -382,3 +379,33 @@ fn dir_scan_open_fails() {
 }
 // removal failed with ENOTEMPTY, scan open succeeds, listing fails with an arbitrary errno
 scan_h!(dir_scan_listing, [P_FAIL, P_OK, P_ANY, P_ANY], libc::ENOTEMPTY);
+
+
+/// `ignore_enoent` for every errno and the other error classes: only ENOENT becomes Ok.
+/// (Decided on its own because the slow-path harness pins the errno of the failed removal.)
+#[kani::proof]
+#[kani::unwind(8)]
+#[kani::stub(alloc::fmt::format, k_format)]
+fn dir_ignore_enoent_all_errnos() {
+    let sel: u8 = kani::any();
+    let errno = any_errno();
+    let input: Result<(), Error> = if sel == 0 {
+        Ok(())
+    } else if sel == 1 {
+        Err(ErrorImpl::OsError { operation: "x".into(), source: std::io::Error::from_raw_os_error(errno) }.into())
+    } else if sel == 2 {
+        Err(ErrorImpl::RawOsError { operation: "x".into(), source: sys_err(3, errno) }.into())
+    } else if sel == 3 {
+        Err(Error::from(ErrorImpl::RawOsError { operation: "x".into(), source: sys_err(3, errno) }).wrap("ctx"))
+    } else {
+        Err(ErrorImpl::SafetyViolation { description: "x".into() }.into())
+    };
+    let out = input.ignore_enoent();
+    let ok = out.is_ok();
+    std::mem::forget(out);
+    let want = sel == 0 || ((sel == 1 || sel == 2 || sel == 3) && errno == libc::ENOENT);
+    assert!(ok == want, "an error other than ENOENT was turned into success (or ENOENT was not tolerated)");
+    kani::cover!(ok && sel == 2, "ENOENT tolerated");
+    kani::cover!(!ok && sel == 1 && errno == libc::EBUSY, "EBUSY stays an error");
+    kani::cover!(!ok && sel == 4, "other classes stay errors");
+}
